@@ -123,6 +123,9 @@ class Cond:
                 t, p, changed = a2, (not p), True
             elif a1 is not t:
                 t, changed = a1, True
+        if p is False and isinstance(t, ast.Compare) and len(t.ops) == 1 and isinstance(t.ops[0], (ast.Eq, ast.NotEq, ast.Is, ast.IsNot, ast.In, ast.NotIn)):
+            # `x is None` not holding is `x is not None` holding: one reading (the one that holds) for every rule
+            t, p, changed = nnf(t, negate=True), True, True
         if not changed:
             return self
         return Cond(t, p, self.kind, raw=self.test, raw_polarity=self.polarity)
